@@ -811,9 +811,27 @@ pub fn locals_named_family() -> Vec<Member> {
     out
 }
 
+/// local declarations with a zero-count group at `pos` (0 front, 1 middle, 2 back) of type `zty`:
+/// valid, and the group declares nothing, so the two real groups keep indices 0 and 1..=2
+pub fn build_locals_zero_group(pos: usize, zty: u8) -> Vec<u8> {
+    let mut mb = MB::default();
+    let t = mb.ty(&[], &[I32]);
+    let mut runs = vec![(1u32, I32), (2u32, I64)];
+    runs.insert(pos.min(2), (0, zty));
+    let code = cat(&[&i64_const(5), &local_set(2), &i32_const(7), &local_set(0), &local_get(2), &[DROP], &local_get(0), &[END]]);
+    let f = mb.func(t, runs, code);
+    mb.export("f", 0, f);
+    mb.build()
+}
+
 pub fn locals_family() -> Vec<Member> {
     let tys = [I32, I64, F32, EXTERNREF];
     let mut out = vec![];
+    for pos in 0..3usize {
+        for zty in [I32, F64, V128, FUNCREF, EXTERNREF] {
+            out.push(Member { family: "locals", coords: format!("zero-count-group pos={} type={:#x}", pos, zty), wasm: build_locals_zero_group(pos, zty) });
+        }
+    }
     for params in 0..=2usize {
         for n in 0..=3usize {
             let total = tys.len().pow(n as u32);
@@ -908,6 +926,37 @@ pub fn customs_family(tier: Tier) -> Vec<Member> {
         uleb(body.len() as u64, &mut w);
         w.extend_from_slice(&body);
         out.push(Member { family: "customs", coords: format!("[padded-name-leb:{}:{}]", nm, pad), wasm: w });
+    }
+    // modules without (live) code: nothing but custom sections; imports only; a memory export
+    // and one function that nothing reaches (gc removes all code)
+    for (bi, b) in [
+        MB::default(),
+        {
+            let mut m = MB::default();
+            let t0 = m.ty(&[], &[]);
+            m.imports.push(("env".into(), "h".into(), Desc::Func(t0)));
+            m.export("h", 0, 0);
+            m
+        },
+        {
+            let mut m = MB::default();
+            let t0 = m.ty(&[], &[]);
+            m.mems.push(Lim::new(1, None));
+            m.export("m", 2, 0);
+            m.func(t0, vec![], vec![0x01, END]);
+            m
+        },
+    ]
+    .into_iter()
+    .enumerate()
+    {
+        for gaps in [vec![0usize], vec![12], vec![0, 12], vec![0, 0, 12]] {
+            let mut mb = b.clone();
+            for (k, g) in gaps.iter().enumerate() {
+                mb.customs.push((*g, ["a", "b", "a"][k].to_string(), payload(k + 1, 3)));
+            }
+            out.push(Member { family: "customs", coords: format!("nocode-base{} gaps={:?}", bi, gaps), wasm: mb.build() });
+        }
     }
     // two sections: every pair of gaps x name pair (incl. equal names) x two sizes
     let names2: [&str; 3] = ["a", "b", "a"];
@@ -1016,6 +1065,14 @@ pub fn names_base(shape: usize) -> MB {
 /// the name-section payload for `names_base(shape)` restricted to the subsections in `mask`
 /// (bit i = subsection id in [0,1,2,4,5,6,7,8,9][i])
 pub fn names_payload(shape: usize, mask: u32) -> Vec<u8> {
+    names_payload_stale(shape, mask, None)
+}
+
+/// as `names_payload`; with `stale = Some((subsection id, variant))` that subsection carries one
+/// more entry, naming an index no entity has (90): such stale entries are left behind by tools
+/// that remove entities without rewriting the name section.  For the locals subsection variant 0
+/// is a stale *function* index, variant 1 a stale local index inside a real function
+pub fn names_payload_stale(shape: usize, mask: u32, stale: Option<(u8, u8)>) -> Vec<u8> {
     let mb = names_base(shape);
     let nf = mb.n_imported(0);
     let nt = mb.n_imported(1);
@@ -1070,9 +1127,41 @@ pub fn names_payload(shape: usize, mask: u32) -> Vec<u8> {
             9 => name_map(&[(0, "data_0"), (1, "data_1")]),
             _ => unreachable!(),
         };
+        let b = match stale {
+            Some((sid, variant)) if sid == *id && *id != 0 => {
+                if *id == 2 {
+                    if variant == 0 {
+                        indirect_name_map(&[
+                            (nf + 1, vec![(0, "b_p0"), (1, "b_p1"), (2, "b_unused"), (3, "b_l3"), (4, "b_l4")]),
+                            (nf + 2, vec![(0, "c_l0")]),
+                            (90, vec![(0, "stale_local")]),
+                        ])
+                    } else {
+                        indirect_name_map(&[
+                            (nf + 1, vec![(0, "b_p0"), (1, "b_p1"), (2, "b_unused"), (3, "b_l3"), (4, "b_l4"), (90, "stale_local")]),
+                            (nf + 2, vec![(0, "c_l0")]),
+                        ])
+                    }
+                } else {
+                    // a name map is a count followed by entries: bump the count (one byte here), append one entry
+                    let mut o = b.clone();
+                    o[0] += 1;
+                    uleb(90, &mut o);
+                    name("stale_entry", &mut o);
+                    o
+                }
+            }
+            _ => b,
+        };
         subs.push((*id, b));
     }
     name_section(&subs)
+}
+
+pub fn build_names_stale(sub: u8, variant: u8) -> Vec<u8> {
+    let mut mb = names_base(0);
+    mb.customs.push((12, "name".into(), names_payload_stale(0, 0x1ff, Some((sub, variant)))));
+    mb.build()
 }
 
 /// sparse variant: only every other entity of each kind is named (elements name index 1, data
@@ -1112,6 +1201,11 @@ pub fn names_family(tier: Tier) -> Vec<Member> {
     let mut out = vec![];
     for parity in 0..2u32 {
         out.push(Member { family: "names", coords: format!("sparse parity={}", parity), wasm: build_names_sparse(parity) });
+    }
+    for sub in [1u8, 2, 4, 5, 6, 7, 8, 9] {
+        for variant in 0..(if sub == 2 { 2 } else { 1 }) {
+            out.push(Member { family: "names", coords: format!("stale entry in subsection {} variant {}", sub, variant), wasm: build_names_stale(sub, variant) });
+        }
     }
     for &shape in shapes {
         for mask in 0..512u32 {
@@ -1332,6 +1426,13 @@ pub fn build_leb_x(n: usize, big: usize, size: usize, nop_variant: bool, extra_u
 /// of *local* functions and the total number of functions can then fall on different sides of a
 /// LEB-length boundary
 pub fn build_leb_imp(n: usize, big: usize, size: usize, nop_variant: bool, extra_unexported: bool, imports: usize) -> Vec<u8> {
+    build_leb_full(n, big, size, nop_variant, extra_unexported, imports, 0)
+}
+
+/// as `build_leb_imp`; `locals_mode` 1 gives every function one used i32 local (so the body does
+/// not start with its first instruction), 2 gives two groups of unused locals (walrus drops them:
+/// every function shrinks)
+pub fn build_leb_full(n: usize, big: usize, size: usize, nop_variant: bool, extra_unexported: bool, imports: usize, locals_mode: u8) -> Vec<u8> {
     let mut mb = MB::default();
     let t0 = mb.ty(&[], &[]);
     for k in 0..imports {
@@ -1344,8 +1445,16 @@ pub fn build_leb_imp(n: usize, big: usize, size: usize, nop_variant: bool, extra
         if i != big && i < imports {
             code.extend_from_slice(&call(i as u32));
         }
+        let locals = match locals_mode {
+            1 => {
+                code.extend_from_slice(&cat(&[&local_get(0), &[DROP]]));
+                vec![(1, 0x7f)]
+            }
+            2 => vec![(1, 0x7f), (2, 0x7e)],
+            _ => vec![],
+        };
         code.push(END);
-        let f = mb.func(t0, vec![], code);
+        let f = mb.func(t0, locals, code);
         mb.export(&format!("f{}", i), 0, f);
     }
     if extra_unexported {
@@ -1494,7 +1603,7 @@ fn trees(n: usize, memo: &mut Vec<Option<Vec<Vec<Ct>>>>) -> Vec<Ct> {
     out
 }
 
-fn ctrl_code(forest: &[Ct], next: &mut i32, depth: usize, out: &mut Vec<u8>) {
+fn ctrl_code(forest: &[Ct], next: &mut i32, depth: usize, fill: u8, out: &mut Vec<u8>) {
     // log(id) before and after every construct, conditions from alternating parameter bits
     let log = |id: i32, out: &mut Vec<u8>| {
         out.extend_from_slice(&cat(&[&i32_const(id), &call(0), &[DROP]]));
@@ -1512,14 +1621,18 @@ fn ctrl_code(forest: &[Ct], next: &mut i32, depth: usize, out: &mut Vec<u8>) {
                 // conditional early exit from the block
                 cond(out);
                 out.extend_from_slice(&[0x0d, 0x00]);
-                log(id * 10 + 1, out);
-                ctrl_code(inner, next, depth + 1, out);
+                if fill != 1 {
+                    log(id * 10 + 1, out);
+                }
+                ctrl_code(inner, next, depth + 1, fill, out);
                 out.push(END);
             }
             Ct::Loop(inner) => {
                 out.extend_from_slice(&[0x03, 0x40]);
-                log(id * 10 + 1, out);
-                ctrl_code(inner, next, depth + 1, out);
+                if fill != 1 {
+                    log(id * 10 + 1, out);
+                }
+                ctrl_code(inner, next, depth + 1, fill, out);
                 // counter-guarded back edge (counter local 2 is shared: every member terminates)
                 out.extend_from_slice(&cat(&[&local_get(2), &i32_const(1), &[0x6a], &local_tee(2), &i32_const(3), &[0x49], &[0x0d, 0x00]]));
                 out.push(END);
@@ -1527,18 +1640,28 @@ fn ctrl_code(forest: &[Ct], next: &mut i32, depth: usize, out: &mut Vec<u8>) {
             Ct::If(inner) => {
                 cond(out);
                 out.extend_from_slice(&[0x04, 0x40]);
-                log(id * 10 + 1, out);
-                ctrl_code(inner, next, depth + 1, out);
+                match fill {
+                    0 | 3 => log(id * 10 + 1, out),
+                    4 => out.push(0x01),
+                    _ => {}
+                }
+                ctrl_code(inner, next, depth + 1, fill, out);
                 out.push(END);
             }
             Ct::IfElse(a, b) => {
                 cond(out);
                 out.extend_from_slice(&[0x04, 0x40]);
-                log(id * 10 + 1, out);
-                ctrl_code(a, next, depth + 1, out);
+                match fill {
+                    0 | 3 => log(id * 10 + 1, out),
+                    4 => out.push(0x01),
+                    _ => {}
+                }
+                ctrl_code(a, next, depth + 1, fill, out);
                 out.push(0x05);
-                log(id * 10 + 2, out);
-                ctrl_code(b, next, depth + 1, out);
+                if fill == 0 || fill == 2 || fill == 4 {
+                    log(id * 10 + 2, out);
+                }
+                ctrl_code(b, next, depth + 1, fill, out);
                 out.push(END);
             }
         }
@@ -1547,16 +1670,66 @@ fn ctrl_code(forest: &[Ct], next: &mut i32, depth: usize, out: &mut Vec<u8>) {
 }
 
 pub fn build_ctrl(forest: &[Ct]) -> Vec<u8> {
+    build_ctrl_fill(forest, 0)
+}
+
+/// `fill` decides which bodies and arms hold instructions of their own: 0 all of them; 1 none
+/// (arms without nested constructs are empty); 2 the then-arms are empty, the else-arms are not;
+/// 3 the else-arms are empty, the then-arms are not; 4 the then-arms hold a single `nop`
+pub fn build_ctrl_fill(forest: &[Ct], fill: u8) -> Vec<u8> {
     let mut mb = MB::default();
     let t0 = mb.ty(&[I32], &[I32]);
     let t1 = mb.ty(&[I32, I32], &[I32]);
     mb.imports.push(("env".into(), "log".into(), Desc::Func(t0)));
     let mut code = cat(&[&i32_const(8100), &[DROP]]);
     let mut next = 0;
-    ctrl_code(forest, &mut next, 0, &mut code);
+    ctrl_code(forest, &mut next, 0, fill, &mut code);
     code.extend_from_slice(&local_get(2));
     code.push(END);
     let f = mb.func(t1, vec![(1, I32)], code);
+    mb.export("f", 0, f);
+    mb.build()
+}
+
+/// three nested blocks that each yield an i32; the innermost leaves through a `br_table` with the
+/// given target vector and default, carrying a value; every exit adds its own power of ten, so the
+/// result tells which label was taken and which value it carried
+pub fn build_brtable(targets: &[u32], default: u32, typed: bool) -> Vec<u8> {
+    let mut mb = MB::default();
+    let t1 = mb.ty(&[I32], &[I32]);
+    let bt: u8 = if typed { I32 } else { 0x40 };
+    let mut code = cat(&[&i32_const(8200), &[DROP]]);
+    for _ in 0..3 {
+        code.extend_from_slice(&[0x02, bt]);
+    }
+    if typed {
+        code.extend_from_slice(&i32_const(7));
+    }
+    code.extend_from_slice(&local_get(0));
+    code.push(0x0e);
+    uleb(targets.len() as u64, &mut code);
+    for t in targets {
+        uleb(*t as u64, &mut code);
+    }
+    uleb(default as u64, &mut code);
+    code.push(END);
+    for k in 0..3 {
+        let add = [100, 1000, 10000][k];
+        if typed {
+            code.extend_from_slice(&cat(&[&i32_const(add), &[0x6a]]));
+        } else {
+            // untyped labels: record the path in the parameter local
+            code.extend_from_slice(&cat(&[&local_get(0), &i32_const(add), &[0x6a], &local_set(0)]));
+        }
+        if k < 2 {
+            code.push(END);
+        }
+    }
+    if !typed {
+        code.extend_from_slice(&local_get(0));
+    }
+    code.push(END);
+    let f = mb.func(t1, vec![], code);
     mb.export("f", 0, f);
     mb.build()
 }
@@ -1565,9 +1738,27 @@ pub fn ctrl_family(tier: Tier) -> Vec<Member> {
     let k = if tier == Tier::Quick { 3 } else { 4 };
     let mut memo = vec![];
     let mut out = vec![];
+    // br_table: every target vector over the three labels up to length 2 (quick) / 3, every default
+    let maxlen = if tier == Tier::Quick { 2 } else { 3 };
+    for len in 0..=maxlen {
+        for code in 0..3usize.pow(len as u32) {
+            let mut c = code;
+            let targets: Vec<u32> = (0..len).map(|_| { let t = (c % 3) as u32; c /= 3; t }).collect();
+            for default in 0..3u32 {
+                for typed in [true, false] {
+                    out.push(Member { family: "ctrl", coords: format!("brtable targets={:?} default={} typed={}", targets, default, typed), wasm: build_brtable(&targets, default, typed) });
+                }
+            }
+        }
+    }
     for n in 0..=k {
         for (i, f) in forests(n, &mut memo).into_iter().enumerate() {
             out.push(Member { family: "ctrl", coords: format!("n={} #{} {:?}", n, i, f).chars().take(160).collect(), wasm: build_ctrl(&f) });
+            if n > 0 {
+                for fill in 1..=4u8 {
+                    out.push(Member { family: "ctrl", coords: format!("n={} #{} fill={} {:?}", n, i, fill, f).chars().take(160).collect(), wasm: build_ctrl_fill(&f, fill) });
+                }
+            }
         }
     }
     out
